@@ -9,7 +9,7 @@ use crate::util::{guard, par_map, Kv};
 
 pub fn meta(_ctx: &Ctx) -> Meta {
     Meta {
-        rule: "6 base networks (dense ranges; shape-preserving conv / deconv ranges; conv(k2,p1)+pool(k2,s1) composite; max-pool as range entry; flat dense output re-read as 1x3x3 at the range entry; range ending in a layer that is flattened for a following dense layer) x EVERY range a <= b whose output shape equals the input shape of a (start / middle / end) x k in 1..3 (4, 5, 6, 9 for two ranges per network) x all 5 accumulations x input skips on/off (with input skips also under a multiplicative / overwrite SKIP-connection accumulation, which must not matter) x 2 exact integer valuations (one of them with inputs scaled by 2^-20), plus pairs of disjoint ranges (one or both with input skips) and pairs of OVERLAPPING ranges (nested or sharing a layer; for the outer loop's iterations both readings - plain layers, or layers with the inner loop - are accepted); plus loops NEAR A FIXED POINT: 5 ranges of a 3-layer 2->2 linear network whose repeated map is x -> g x + (1-g) (g = 2 repelling, g = 1/2 attracting) started 1 ulp (8 ulp) from the fixed point, k in {8,16,22}, all 5 accumulations - successive iterates differ by a few ulp and all arithmetic is exact. Oracles: reference interpreter y_0=f(x_a), y_t=f(y_{t-1}[+x_a]), out=comb(y_0;y_1..y_k); with overwrite (no input skips) bit-equality with the plain network in which layers a..b are repeated k+1 times with the same weights. Non-trivial = reference output has >= 2 distinct non-zero entries".into(),
+        rule: "6 base networks (dense ranges; shape-preserving conv / deconv ranges; conv(k2,p1)+pool(k2,s1) composite; max-pool as range entry; flat dense output re-read as 1x3x3 at the range entry; range ending in a layer that is flattened for a following dense layer) x EVERY range a <= b whose output shape equals the input shape of a (start / middle / end) x k in 1..3 (4, 5, 6, 9 for two ranges per network) x all 5 accumulations x input skips on/off (with input skips also under a multiplicative / overwrite SKIP-connection accumulation, which must not matter) x 2 exact integer valuations (one of them with inputs scaled by 2^-20; the first also with the network assembled in the other order: each loopback call issued as soon as the layers of its range exist, before the remaining layers are added), plus pairs of disjoint ranges (one or both with input skips) and pairs of OVERLAPPING ranges (nested or sharing a layer; for the outer loop's iterations both readings - plain layers, or layers with the inner loop - are accepted); plus loops NEAR A FIXED POINT: 5 ranges of a 3-layer 2->2 linear network whose repeated map is x -> g x + (1-g) (g = 2 repelling, g = 1/2 attracting) started 1 ulp (8 ulp) from the fixed point, k in {8,16,22}, all 5 accumulations - successive iterates differ by a few ulp and all arithmetic is exact. Oracles: reference interpreter y_0=f(x_a), y_t=f(y_{t-1}[+x_a]), out=comb(y_0;y_1..y_k); with overwrite (no input skips) bit-equality with the plain network in which layers a..b are repeated k+1 times with the same weights. Non-trivial = reference output has >= 2 distinct non-zero entries".into(),
         bound: "k <= 3 (9 for two ranges per network), ranges of <= 3 layers, planes 3x3, one channel (thorough: every k in 1..9 and 12 for every range, ranges of <= 5 layers in a 6-layer network, two-channel convolutions, overlapping pairs with (k1,k2) up to 3 under all 5 accumulations)".into(),
         exhaustive: true,
         assumptions: vec!["tolerance 2e-6*max|reference| (mean over 3 operands is not exact); the unrolled-network differential is bit-exact".into()],
@@ -178,6 +178,18 @@ fn class(net: &Net) -> String {
 }
 
 pub fn check(seed: u64, case: &Kv, rep: &mut Report) {
+    // "order=eager": the same network assembled with every loopback call issued as soon as the layers of its range exist,
+    // before the remaining layers are added
+    let eager = case.opt("order") == Some("eager");
+    libnet::set_eager(eager);
+    if eager {
+        rep.count("cases_built_with_loopback_calls_before_the_remaining_layers", 1);
+    }
+    check_inner(seed, case, rep);
+    libnet::set_eager(false);
+}
+
+fn check_inner(seed: u64, case: &Kv, rep: &mut Report) {
     let net = Net::parse(case.get("net"));
     let v = case.usize("val");
     rep.states += 1;
@@ -281,6 +293,7 @@ pub fn run(ctx: &Ctx) -> Report {
     let ns = nets(ctx.tier.thorough());
     let vals = if ctx.tier.thorough() { 4 } else { 2 };
     let mut cs: Vec<Kv> = ns.iter().flat_map(|n| (0..vals).map(move |v| Kv::new().put("net", n.name()).put("val", v))).collect();
+    cs.extend(ns.iter().map(|n| Kv::new().put("net", n.name()).put("val", 0).put("order", "eager")));
     cs.extend(fixed_point_nets().iter().flat_map(|n| [8usize, 9].into_iter().map(move |v| Kv::new().put("net", n.name()).put("val", v))));
     let seed = ctx.seed;
     let chunks: Vec<&[Kv]> = cs.chunks(64).collect();
